@@ -24,6 +24,10 @@ def _impl():
 
 def gen_encode_inputs(ctx):
     yield b""
+    # long inputs (any internal chunking, buffering or line wrapping of an encoder shows only here)
+    for n in ([57, 76, 1023, 1024, 4095, 4096, 4097, 65535, 65536, 65537, 65538, 65539, 131073, 200000] +
+              ([1 << 20, (1 << 20) + 1] if ctx.tier == "thorough" else [])):
+        yield ctx.rng.randbytes(n)
     for a in range(256):
         yield bytes([a])
     for a in range(256):
@@ -77,13 +81,16 @@ def gen_ints(ctx):
 
 
 def run(ctx):
+    import sys
+    if hasattr(sys, "set_int_max_str_digits"):
+        sys.set_int_max_str_digits(0)      # the harness prints big integers in decimal; CPython's 4300-digit guard is not joserfc's
     util, u2 = _impl()
 
     # ---- correspondence: model vs implementation --------------------------------------------
     enc_inputs = list(gen_encode_inputs(ctx))
     differential(ctx, "b64-encode", (
         {"line": f"b64e {hx(x)}", "impl": (lambda x=x: hx(util.urlsafe_b64encode(x)))} for x in enc_inputs))
-    dec_inputs = list(dict.fromkeys(list(gen_decode_inputs(ctx)) + [util.urlsafe_b64encode(x) for x in enc_inputs[:70000:7]]))
+    dec_inputs = list(dict.fromkeys(list(gen_decode_inputs(ctx)) + [util.urlsafe_b64encode(x) for x in enc_inputs[:70000:7] if len(x) <= 5000]))   # the model's decoder is quadratic
     differential(ctx, "b64-decode", (
         {"line": f"b64d {hx(s)}", "impl": (lambda s=s: hx(util.urlsafe_b64decode(s)))} for s in dec_inputs))
     ints = list(dict.fromkeys(gen_ints(ctx)))
@@ -101,7 +108,7 @@ def run(ctx):
     differential(ctx, "encode-int", (
         {"line": f"encint {n} {bits}", "impl": (lambda n=n, bits=bits: hx(u2.encode_int(n, bits)))} for n, bits in encint_cases))
     differential(ctx, "decode-int", (
-        {"line": f"decint {hx(x)}", "impl": (lambda x=x: str(u2.decode_int(x)))} for x in enc_inputs[:2000] + enc_inputs[-300:]))
+        {"line": f"decint {hx(x)}", "impl": (lambda x=x: str(u2.decode_int(x)))} for x in [y for y in enc_inputs if len(y) <= 600][:2000] + enc_inputs[-300:]))
     ctx.exhaustive = True
     ctx.extra["exhaustive_note"] = "all octet strings of length <= 2 (65793) through encode and decode(encode); all strings of length <= 4 over the listed symbols through decode"
 
